@@ -2587,3 +2587,90 @@ def rule_invmap1(ctx, rels):
     if n == 0:
         r.ok("INVMAP1", "modules", ",".join(rels), "",
              "no map is inverted by a comprehension")
+
+
+_FINITE_TESTS = ("isnan", "isfinite", "isinf", "nan_to_num")
+_OBJECT_SINKS = ("Point", "IdealPoint", "DualPoint", "Isometry", "Hyperplane",
+                 "Geodesic", "Segment", "Subspace", "TangentVector",
+                 "find_isometry", "indefinite_orthogonalize",
+                 "orthogonal_complement")
+
+
+def rule_nanflow1(ctx):
+    r = ctx.r
+    r.rule("NANFLOW1", "the centre / radius returned by sphere_parameters and "
+                       "circle_parameters is nan BY DESIGN for a subspace "
+                       "through the origin (a flat in the Poincare model; "
+                       "the drawing code tests for it). It is not used to "
+                       "build further geometric objects or frames "
+                       "(Point(..), Isometry(..), find_isometry, "
+                       "indefinite_orthogonalize) unless a finiteness test "
+                       "(np.isnan / np.isfinite / np.isinf) on it or on the "
+                       "value derived from it appears in the function: "
+                       "otherwise every construction on a diameter -- its "
+                       "dual point, the reflection across it -- is nan")
+    hyp = ctx.p.module_by_rel(HYP)
+    n = 0
+    for f in ctx.p.all_functions:
+        if f.module is not hyp:
+            continue
+        srcs = {}
+        for st in ast.walk(f.node):
+            if isinstance(st, ast.Assign) and isinstance(st.value, ast.Call) \
+                    and dotted(st.value.func).split(".")[-1] in (
+                        "sphere_parameters", "circle_parameters"):
+                for t in st.targets:
+                    for x in ast.walk(t):
+                        if isinstance(x, ast.Name):
+                            srcs[x.id] = st
+        if not srcs:
+            continue
+        # values derived from them
+        derived = dict(srcs)
+        grew = True
+        while grew:
+            grew = False
+            for st in ast.walk(f.node):
+                if isinstance(st, ast.Assign) and len(st.targets) == 1 \
+                        and isinstance(st.targets[0], ast.Name) \
+                        and st.targets[0].id not in derived and any(
+                            isinstance(x, ast.Name) and x.id in derived
+                            for x in ast.walk(st.value)):
+                    derived[st.targets[0].id] = st
+                    grew = True
+        tested = set()
+        for c in ast.walk(f.node):
+            if isinstance(c, ast.Call) and dotted(c.func).split(".")[-1] \
+                    in _FINITE_TESTS:
+                for x in ast.walk(c):
+                    if isinstance(x, ast.Name) and x.id in derived:
+                        tested.add(x.id)
+        sinks = []
+        for c in ast.walk(f.node):
+            if isinstance(c, ast.Call) and dotted(c.func).split(".")[-1] \
+                    in _OBJECT_SINKS:
+                for a in list(c.args) + [k.value for k in c.keywords]:
+                    if any(isinstance(x, ast.Name) and x.id in srcs
+                           for x in ast.walk(a)):
+                        sinks.append(c)
+        for c in sinks:
+            n += 1
+            r.analysed(f)
+            inst = f"{f.qualname}:{dotted(c.func)}"
+            if tested:
+                r.ok("NANFLOW1", inst, loc(f, c), dotted(c)[:80],
+                     "a finiteness test on " + ", ".join(sorted(tested))
+                     + " handles the flat case")
+            else:
+                r.violation(
+                    "NANFLOW1", f"{f.fq}|{dotted(c.func)}", loc(f, c),
+                    dotted(c)[:120],
+                    f"{f.qualname} builds `{dotted(c)[:50]}` from the "
+                    "Poincare centre of the subspace, which is nan when the "
+                    "subspace passes through the origin (its sphere is a "
+                    "flat), and nothing tests for that: the dual point and "
+                    "the reflection across any diameter of the ball are nan",
+                    instance=inst)
+    if n == 0:
+        r.ok("NANFLOW1", "hyperbolic.py", HYP, "",
+             "no object is built from a sphere centre")
